@@ -70,18 +70,22 @@ Section Projector.
         match n with
         | NDocument _ => flat_map (project_node hl) kids
         | NSection l => GHeader (hl + 1) l :: flat_map (project_node (hl + 1)) kids
-        (* `TreeIter::child` is `Some` for every existing node, also a childless one, so a
-           childless quote / list is projected to an empty quote / list block (on the arena
-           pointer it would be skipped) *)
-        | NQuote => [GQuote (flat_map (project_node 0) kids)]
+        (* a quote or list whose projection has no content is skipped *)
+        | NQuote => match flat_map (project_node 0) kids with [] => [] | q => [GQuote q] end
         | NBList =>
-            [GBList (map (fun c => match c with T _ cn ck =>
+            match kids with
+            | [] => []
+            | _ => [GBList (map (fun c => match c with T _ cn ck =>
                         (if first_is_leaf ck then GPara (node_inlines cn) else GPlain (node_inlines cn))
                           :: flat_map (project_node 0) ck end) kids)]
+            end
         | NOList =>
-            [GOList (map (fun c => match c with T _ cn ck =>
+            match kids with
+            | [] => []
+            | _ => [GOList (map (fun c => match c with T _ cn ck =>
                         (if first_is_leaf ck then GPara (node_inlines cn) else GPlain (node_inlines cn))
                           :: flat_map (project_node 0) ck end) kids)]
+            end
         | NLeaf l => [GPara l]
         | NRaw lang content => [GCode lang content]
         | NRule => [GRule]
